@@ -102,7 +102,7 @@ def canonSlots : Resp → String
 def renderOutcome : Outcome → String
   | .exec n => s!"exec {n}"
   | .moved s a => s!"moved {s} {a}"
-  | .forward s a t => s!"forward {s} {a} " ++ (match t with | some n => toString n | none => "-")
+  | .forward s a _ => s!"forward {s} {a}"   -- the redirection budget is C09's observable, not C14's
   | .errClusterNotFound => "clusternotfound"
   | .errMissingKey => "missingkey"
   | .errSlotNotCovered s => s!"notcovered {s}"
